@@ -24,6 +24,7 @@ RULE = ('(a) every statement list of length <= 4 (quick) / <= 5 (thorough; <= 6 
         '>= 1 jump. Distinct by model + initial n.')
 RULE += " Also: label names '', '0', 'A b', '__bareScriptLoop0', non-ASCII; conditional jumps on a raw value from the truth table ({} is true, [] is false); spreadsheet aliases in jump conditions (undefined); every 3rd model is also run without caller-supplied globals (options without the member twice, then no options at all under a 10 s deadline) and must equal the run from empty globals. Round 5: odd function names (`f{x}`, `{}`, `''`, quotes) and assignment targets (`''`, `a b`), a function value kept under a second name while the name is defined again and the old body calls its own name, globals that bind library function names."
 RULE += ' Round 7: function statements with lastArgArray spelled out as false, or true without any args member; call expressions without the optional args member; label names spelled like the member names of the model (expr, jump, name, statements ...).'
+RULE += ' Round 8: after every model a follow-up model that calls the functions it bound runs on the same globals object, once with the options object of the first run and once with a fresh one: outcome, log and statement count must agree (and nothing may reach the log function of the earlier run).'
 ASSUMPTIONS = ['models are schema-valid (validate_script is asserted for every generated model)',
                'expression evaluation inside the VM uses the reference evaluator (C03 decides that)']
 
